@@ -32,8 +32,12 @@ pub enum Choice {
     SubstAndSpecDerive,
     /// a substitute and recursive {A2}
     SubstAndRecAttr,
+    /// specific {D1} and recursive attribute {A2}: the path is in both maps, its derives in one, its attribute in the other
+    SpecDeriveRecAttr,
+    /// specific {D1} and specific {A1}
+    SpecDeriveAndAttr,
 }
-pub const CHOICES: [Choice; 10] = [
+pub const CHOICES: [Choice; 12] = [
     Choice::Absent,
     Choice::SpecDerive,
     Choice::SpecAttr,
@@ -44,6 +48,8 @@ pub const CHOICES: [Choice; 10] = [
     Choice::Substitute,
     Choice::SubstAndSpecDerive,
     Choice::SubstAndRecAttr,
+    Choice::SpecDeriveRecAttr,
+    Choice::SpecDeriveAndAttr,
 ];
 
 /// known: p::a::K, p::r#type::L;  unknown: a::K (a proper suffix of a known path), p::a::Z, and (thorough tier)
@@ -114,6 +120,14 @@ fn spec_of(s: &ValState) -> SettingsSpec {
                 ));
                 sp.derives_for.push((p, vec![D1.into()], false));
             }
+            Choice::SpecDeriveRecAttr => {
+                sp.derives_for.push((p.clone(), vec![D1.into()], false));
+                sp.attrs_for.push((p, vec![A2.into()], true));
+            }
+            Choice::SpecDeriveAndAttr => {
+                sp.derives_for.push((p.clone(), vec![D1.into()], false));
+                sp.attrs_for.push((p, vec![A1.into()], false));
+            }
             Choice::SubstAndRecAttr => {
                 sp.substitutes.push((
                     p.clone(),
@@ -152,7 +166,7 @@ fn model(s: &ValState, reg: &PortableRegistry) -> Model {
         };
         match c {
             Choice::Absent => {}
-            Choice::SpecDerive | Choice::SubstAndSpecDerive => dd(D1),
+            Choice::SpecDerive | Choice::SubstAndSpecDerive | Choice::SpecDeriveRecAttr | Choice::SpecDeriveAndAttr => dd(D1),
             Choice::RecDerive => dd(D2),
             Choice::SpecAndRecDerive => {
                 dd(D1);
@@ -165,8 +179,8 @@ fn model(s: &ValState, reg: &PortableRegistry) -> Model {
             a.entry(p.clone()).or_default().insert(squash(x));
         };
         match c {
-            Choice::SpecAttr => aa(A1),
-            Choice::RecAttr | Choice::SubstAndRecAttr => aa(A2),
+            Choice::SpecAttr | Choice::SpecDeriveAndAttr => aa(A1),
+            Choice::RecAttr | Choice::SubstAndRecAttr | Choice::SpecDeriveRecAttr => aa(A2),
             Choice::SpecAndRecBoth => {
                 aa(A1);
                 aa(A2)
@@ -293,7 +307,7 @@ impl Driver for DVal {
     type State = ValState;
     fn name(&self) -> String {
         format!(
-            "D-validate({} paths: 2 known + {} unknown (one a proper suffix of a known path{}) x 10 registrations each (specific / recursive / both / substitute / substitute+derive) x 3 registry sizes x map orders)",
+            "D-validate({} paths: 2 known + {} unknown (one a proper suffix of a known path{}) x 12 registrations each (specific / recursive / both / substitute / substitute+derive) x 3 registry sizes x map orders)",
             self.n_paths,
             self.n_paths - 2,
             if self.n_paths > 4 { ", one extending a known path" } else { "" }
